@@ -53,6 +53,11 @@ def array(rng):
     a = _array(rng)
     _RECENT.append(a)
     del _RECENT[:-4]
+    r = rng.random()
+    if r < 0.3:
+        # the same logical array in another memory layout: a transposed view, Fortran order, reversed / strided views
+        a = rng.choice([lambda x: x.T, np.asfortranarray, lambda x: x[::-1], lambda x: x[:, ::-1], lambda x: x.T.conj() if x.dtype.kind == "c" else x.T,
+                        lambda x: np.repeat(np.repeat(x, 2, axis=0), 2, axis=1)[::2, ::2]])(a)
     return a
 
 
